@@ -1,6 +1,6 @@
 use super::*;
 use crate::base::{BaseSlot, BlockType, EntryContext, RuleCheckSlot, TokenResult};
-use lazy_static::lazy_static;
+use crate::vsync::lazy_static;
 use std::sync::Arc;
 
 const RULE_CHECK_SLOT_ORDER: u32 = 5000;
